@@ -259,7 +259,9 @@ func (s *Sim) point(r request) bool {
 		panic("simrt: sim point reached outside a task")
 	}
 	if s.aborted {
-		return false
+		// the run is over (deadlock, event cap): a task that is still running -
+		// a spin loop around an atomic, say - must not keep running for real
+		runtime.Goexit()
 	}
 	r.reqSeq = s.seq
 	t.req = r
@@ -567,11 +569,25 @@ func (s *Sim) apply(t *Task) {
 		}
 		s.logEvent(t, r.kind, r.label)
 	case KAtomic:
-		// sequentially consistent atomic: acquire+release on the location
+		// an atomic operation on the location. Go's memory model orders a write
+		// before the reads that observe it and nothing else: a load acquires, a
+		// store publishes (and, observing nothing, replaces what was published),
+		// a read-modify-write does both.
 		l := s.lockOf(r.obj, false)
-		t.vc.join(l.relW)
-		l.relW.join(t.vc)
-		t.vc.tick(t.ID)
+		switch r.n {
+		case AtomicAcquire:
+			t.vc.join(l.relW)
+		case AtomicRelease:
+			l.relW = t.vc.clone()
+			t.vc.tick(t.ID)
+		case AtomicReleaseJoin:
+			l.relW.join(t.vc)
+			t.vc.tick(t.ID)
+		default:
+			t.vc.join(l.relW)
+			l.relW.join(t.vc)
+			t.vc.tick(t.ID)
+		}
 		s.logEvent(t, r.kind, l.label)
 	}
 }
@@ -771,6 +787,34 @@ func WgWait(p unsafe.Pointer) { s := must(); s.point(request{kind: KWgWait, obj:
 
 // Atomic is a sequentially consistent atomic access to p.
 func Atomic(p unsafe.Pointer) { s := must(); s.point(request{kind: KAtomic, obj: p}) }
+
+// Modes of an atomic operation (see the KAtomic case).
+const (
+	AtomicBoth        = 0
+	AtomicAcquire     = 1 // a load
+	AtomicRelease     = 2 // a store
+	AtomicReleaseJoin = 3 // a store into a multi-entry object (sync.Map, sync.Pool): earlier entries stay published
+)
+
+// AtomicMode is Atomic with an explicit mode.
+func AtomicMode(p unsafe.Pointer, mode int) {
+	s := must()
+	s.point(request{kind: KAtomic, obj: p, n: mode})
+}
+
+// AtomicPublish adds the release half to the acquire-only atomic the running
+// task has just performed on p (a compare-and-swap that turned out to
+// succeed). It is not a scheduling point.
+func AtomicPublish(p unsafe.Pointer) {
+	s := must()
+	t := s.cur
+	if t == nil || s.aborted {
+		return
+	}
+	l := s.lockOf(p, false)
+	l.relW.join(t.vc)
+	t.vc.tick(t.ID)
+}
 
 // R is a probed read of *p, inserted by the instrumenter before the access.
 func R[T any](p *T, label string) {
